@@ -258,6 +258,10 @@ func init() {
 		}
 		return nil
 	})
+	reg(ndPkg+".ExploreMapOrders", func(in *Interp, fr *frame, a []Value) Value {
+		in.mapOrders = a[0].(*Term).c != 0
+		return nil
+	})
 	reg(ndPkg+".PreemptionBound", func(in *Interp, fr *frame, a []Value) Value {
 		in.preemptionBound = int(in.concInt(a[0]))
 		return nil
